@@ -116,7 +116,12 @@ def h_generate(env, name="sphere_r5", size=None):
     """name-based generator == direct constructor, voxel by voxel (concrete sizes come from the name)"""
     cmk = env.module("cryomask")
     env.option("lazy", True)       # concrete sizes, but keep the volumes functional so that one symbolic voxel covers them all
-    shape, specs = cmk.parse_shape_string(name)
+    # the shape and its parameters are read off the name by the harness itself (not by the code under test)
+    parts = name.split("_")
+    shape = {"sphere": "sphere", "cylinder": "cylinder", "s": "s_shell"}[parts[0]]
+    specs = [int("".join(ch for ch in p_ if ch.isdigit())) for p_ in parts if any(ch.isdigit() for ch in p_)]
+    pshape, pspecs = cmk.parse_shape_string(name)
+    env.check("name_parsed_as_written", env.true() if (pshape == shape and [int(v) for v in pspecs] == specs) else _false(env))
     g = cmk.generate_mask(name) if size is None else cmk.generate_mask(name, mask_size=size)
     ms = g.shape[0]
     i = [env.integer("i%s" % a, 0, 200) for a in "xyz"]
@@ -258,7 +263,7 @@ def jobs(tier, seed):
     j = [("h_sphere", {}), ("h_sphere", {"explicit_centre": False}), ("h_sphere", {"default_radius": True, "explicit_centre": False}),
          ("h_cylinder", {}), ("h_cylinder", {"explicit_centre": False}), ("h_shell", {}),
          ("h_generate", {"name": "sphere_r5"}), ("h_generate", {"name": "cylinder_r3_h7"}), ("h_generate", {"name": "s_shell_r6_s2"}),
-         ("h_generate", {"name": "cylinder_r4_h10", "size": 16})]
+         ("h_generate", {"name": "cylinder_r4_h10", "size": 16}), ("h_generate", {"name": "s_shell_r14_s12"}), ("h_generate", {"name": "sphere_r12"}), ("h_generate", {"name": "cylinder_r11_h20"})]
     for op in ("union", "intersection", "subtraction", "difference"):
         j.append(("h_algebra", {"op": op, "k": 2}))
         j.append(("h_algebra", {"op": op, "k": 3 if op != "difference" else 2, "soft": True}))
